@@ -225,15 +225,29 @@ func VX_C08_OverlappingClose(args []int) {
 
 // VX_C13_TwoOutages: a redial-enabled client session goes through two outages
 // that each need all of the configured retries; the budget is per outage: the
-// session survives both. args: redialTimes, outages
+// session survives both. args: redialTimes, outages[, slow(1: a dial timeout is configured and every failing attempt outlasts it)]
 func VX_C13_TwoOutages(args []int) {
 	R, outages := args[0], args[1]
-	p := NewPeer(PeerConfig{RedialTimes: int32(R)})
+	cfg := PeerConfig{RedialTimes: int32(R)}
+	slow := len(args) > 2 && args[2] == 1
+	if slow {
+		// every failing attempt takes longer than the dial timeout (a long outage)
+		cfg.DialTimeout = 60 * time.Millisecond
+		if vxSymbolic() {
+			// the engine's clock is virtual (timers fire only through vxFireTimers);
+			// the length of the timeout is immaterial there
+			cfg.DialTimeout = time.Hour
+		}
+	}
+	p := NewPeer(cfg)
 	var conns []*vxConn
 	failNext := 0
 	VXSetDialHook(func(addr string) (net.Conn, error) {
 		if failNext > 0 {
 			failNext--
+			if slow {
+				vxFireTimers()
+			}
 			return nil, errors.New("connection refused")
 		}
 		c := newVxConn(fmt.Sprintf("cli:%d", len(conns)), addr)
